@@ -66,6 +66,12 @@ func (c *Ctx) OK(construct, pos, msg string) { c.add("discharged", construct, po
 
 // Bad records a violated obligation.
 func (c *Ctx) Bad(construct, pos, msg string, path ...string) {
+	key := c.rule.Name + ":" + construct
+	for _, o := range c.Obs {
+		if o.Key == key && o.Pos == pos && o.Status == "violated" {
+			return // same construct at the same position already reported
+		}
+	}
 	c.add("violated", construct, pos, msg, true, path)
 }
 
